@@ -249,6 +249,13 @@ class Seams(object):
                 self.probes["work_budget_cut:" + kname] += 1
                 self.kernel_events.append((full, shape, "budget-cut"))
                 raise LinAlgError("simulated: work budget of %s exceeded (||A||_1 = %.3g)" % (kname, nrm))
+        if kname == "sp.eig" and isinstance(a0, np.ndarray) and a0.size and not np.all(np.isfinite(a0)):
+            # SciPy 1.18.1: scipy.linalg.eig(check_finite=False) on a matrix containing inf/NaN writes past the end of a
+            # heap block (valgrind: transform_eigvecs in _batched_linalg) and the process dies later in free().  A dead
+            # process cannot be simulated further, so the seam answers what check_finite=True would have answered.
+            self.probes["nonfinite_input_refused:sp.eig"] += 1
+            self.kernel_events.append((full, shape, "refused-nonfinite"))
+            raise ValueError("array must not contain infs or NaNs (simulated check_finite)")
         overwrite = bool(k.get("overwrite_a") or k.get("overwrite_b"))
         before = None
         if overwrite and isinstance(a0, np.ndarray):
